@@ -14,10 +14,10 @@ EXPLANATION = (
     "ruler and the MarkdownIt facade (enable/disable/get_active_rules + probe parse against an instance built in the reported configuration)."
 )
 BOUNDS = {
-    "quick": "step: 3 ruler layouts (1-2 rules incl. a duplicate name, fixed alt sets over chains x,y), symbolic enabled flags, cache cold/warm symbolic, "
+    "quick": "step: 6 ruler layouts (1-3 rules incl. duplicate names, fixed alt sets over chains x,y), symbolic enabled flags, cache cold/warm symbolic, "
              "11 operations with arguments over {a,b,c,zz}, ignoreInvalid symbolic, str-vs-list argument symbolic; histories of 2 operations from "
              "a 6-operation menu; facade: 1 call over 5 names (1-2 names per call)",
-    "thorough": "6 ruler layouts (up to 3 rules); histories of 3 operations; facade: 2 calls",
+    "thorough": "same step jobs; histories of 3 operations; facade: 2 calls",
 }
 OUTSIDE = "rulers with more than 3 rules; more than 2 names per enable/disable call; histories longer than 3 (covered by the inductive step for coherence only)"
 ASSUMPTIONS = ["for a call that raised, only coherence is demanded, plus an unchanged table for pure look-ups (at/before/after, enable/disable of a "
@@ -361,7 +361,7 @@ LAYOUTS_T = LAYOUTS_Q + [(["a", "b", "a"], [["x"], ["x", "y"], []]), (["c", "a",
 
 def jobs(tier, seed):
     jobs = []
-    for names, alts in (LAYOUTS_Q if tier == "quick" else LAYOUTS_T):
+    for names, alts in LAYOUTS_T:
         for op in OPS:
             jobs.append({"harness": "step", "params": {"names": names, "alts": alts, "op": op}, "weight": len(names) * 3,
                          "cpu_cap": 1500, "wall_cap": 2400})
